@@ -97,7 +97,25 @@ func c09Spaces(tier string) []*explore.Space {
 			f4 = append(f4, gen.F("substring", p, i), gen.F("substring", p, i, lit("2", 2)))
 		}
 	}
-	f4 = append(f4, gen.F("string"), gen.F("normalize-space")) // string-length() without argument is deliberately rejected by Compile and outside the property
+	f4 = append(f4, gen.F("string"), gen.F("normalize-space"))
+	// F5: the node-set argument carries its own iteration state (positional
+	// predicate over a group / over another predicate); the function is
+	// evaluated for several candidates of an enclosing predicate
+	var f5 []hostCase
+	G := func(e gen.Expr, preds ...gen.Expr) gen.Expr { return &gen.Filter{Primary: &gen.Group{E: e}, Preds: preds} }
+	statefulArgs := []gen.Expr{G(relPath(gen.Ch("a")), gen.N(1)), G(relPath(gen.Ch("*")), gen.N(2)), G(relPath(gen.Ch("node()")), gen.F("last")), relPath(gen.Ch("*", relPath(gen.At("*")), gen.N(1))),
+		relPath(gen.Ch("*", gen.B(">", gen.F("position"), gen.N(1)), gen.N(1))), G(relPath(gen.Ch("node()")), gen.B("=", gen.F("position"), gen.F("last"))), relPath(gen.Ch("*"), gen.Ch("*", gen.N(1))),
+		G(relPath(gen.Dot(), gen.DSlash(), gen.Ch("text()")), gen.N(1))}
+	for _, h := range []gen.Step{gen.Ch("*"), gen.St("descendant-or-self", "node()")} {
+		for _, a := range statefulArgs {
+			for _, call := range []gen.Expr{gen.B(">", gen.F("string-length", a), gen.N(0)), gen.B("!=", gen.F("normalize-space", a), gen.S("")), gen.F("contains", a, gen.S("a")), gen.F("starts-with", a, gen.S("a")),
+				gen.B("=", gen.F("substring", a, gen.N(1), gen.N(1)), gen.S("a")), gen.B("=", gen.F("concat", a, gen.S("x")), gen.S("abx")), gen.B("=", gen.F("string", a), gen.S("ab")), gen.B("=", gen.F("lower-case", a), gen.S("b")),
+				gen.B("=", gen.F("translate", a, gen.S("a"), gen.S("b")), gen.S("bb")), gen.B("=", gen.F("substring-before", a, gen.S("b")), gen.S("a")), gen.B("!=", gen.F("string-join", a, gen.S(",")), gen.S("")),
+				gen.B("=", gen.F("substring-after", a, gen.S("a")), gen.S("b")), gen.F("ends-with", a, gen.S("b"))} {
+				f5 = append(f5, hostCase{relPath(withPred(h, call)), relPath(h)})
+			}
+		}
+	} // string-length() without argument is deliberately rejected by Compile and outside the property
 	n := 3
 	if tier == "thorough" {
 		n = 4
@@ -109,6 +127,8 @@ func c09Spaces(tier string) []*explore.Space {
 		exprSpace("F2", "substring(s,i) and substring(s,i,l) over the 12 x 16 x 17 cube", f2, one, ev),
 		exprSpace("F3", "chains of unary string wrappers", f3, one, ev),
 		exprSpace("F4", "flat node-set arguments x value universe", f4, docs, ev),
+		exprSpace("F5", "string functions over arguments that end in a positional predicate, evaluated for several candidates of a predicate", hostExprs(f5), docs,
+			&evalCfg{Prop: "C09", Ops: []string{"select"}, Mode: "set", Base: func(i int) gen.Expr { return f5[i].base }}),
 	}
 }
 
